@@ -53,7 +53,9 @@ def ref_states(ops):
 
 
 def allowed_prefixes(ops, tr):
-    """from the killed run's own trace: (lo, hi) of admissible prefix lengths"""
+    """from the killed run's own trace: (lo, hi) of admissible prefix lengths.  An online backup (op B..) changes no
+    record; the operations released into it are traced inside its bracket, so a backup call that is still in
+    flight does not end the walk."""
     done = 0
     last_sync = 0
     inflight = False
@@ -62,12 +64,39 @@ def allowed_prefixes(ops, tr):
         if o is None:
             break
         if o.get("rc") is None:
+            if ops[i][0] in "bB":
+                done = i + 1
+                continue
             inflight = True
             break
         done = i + 1
         if ops[i][0] in "scn" and o["rc"] == "0":
             last_sync = i + 1
     return last_sync, done + (1 if inflight else 0), done, inflight
+
+
+def gen_backup_history(rng):
+    """history whose tail runs inside iwkv_online_backup: the writer thread is released when the WAL_COPY1 loop is
+    over (stage WAL_COPY1, no lock held); it logs something, forces a checkpoint (or grows the file) - the log is
+    kept and gets SEP+RESET -, syncs, and then leaves flushed-but-unsynced records behind that savepoint (4 KB log
+    buffer, values of 1500/3000 bytes).  Crash points inside that tail give logs with a reset mark."""
+    ops = ["n1"] + ["p1:%s:%d:%d" % (W.khex(rng.choice(KEYS)), rng.choice([5, 20, 100, 700]), rng.below(250)) for _ in range(rng.range(2, 8))]
+    if rng.chance(1, 2):
+        ops.append("s")
+    inj = ["p1:%s:%d:%d" % (W.khex(rng.choice(KEYS)), rng.choice([20, 100, 700]), rng.below(250)),
+           "c" if rng.chance(3, 4) else "p1:%s:40000:%d" % (W.khex(rng.choice(KEYS)), rng.below(250)),
+           "p1:%s:%d:%d" % (W.khex(rng.choice(KEYS)), rng.choice([20, 100]), rng.below(250)),
+           "s"]
+    for _ in range(rng.range(3, 7)):
+        r = rng.below(10)
+        if r < 6:
+            inj.append("p1:%s:%d:%d" % (W.khex(rng.choice(KEYS)), rng.choice([1500, 3000, 3000, 700]), rng.below(250)))
+        elif r < 8:
+            inj.append("d1:%s" % W.khex(rng.choice(KEYS)))
+        else:
+            inj.append("s")
+    ops.append("B0:%d" % len(inj))
+    return ops + inj
 
 
 def growth_class(ops, full, killat):
@@ -141,7 +170,7 @@ SESSION2 = ["n3", "p3:%s:9:1" % W.khex("x1"), "p3:%s:700:2" % W.khex("x2"), "d3:
 SESSION2_DB3 = "db3{%s=%s}" % (W.khex("x2"), W.vrepr(W.genval(700, 2)))
 
 
-def crash_cases(run, impl, wd, name, crc, ops, kills):
+def crash_cases(run, impl, wd, name, crc, ops, kills, model=None):
     """kills: list of (killat, rec_kill or None, cont).  cont = continue into a second session after the
     recovering open: reopen, create db 3, put/del/sync, CLEAN close, reopen and dump.
     Returns list of (trace of the killed run, line of the first complete recovering open, all lines, cont result)"""
@@ -151,11 +180,15 @@ def crash_cases(run, impl, wd, name, crc, ops, kills):
     for ci, kk in enumerate(kills):
         k, rk = kk[0], kk[1]
         cont = len(kk) > 2 and kk[2]
+        t2 = len(kk) > 3 and kk[3] and model is not None
         d = os.path.join(wd, "%s-k%d" % (name, ci))
         shutil.rmtree(d, ignore_errors=True)
         os.makedirs(d)
         c = ci % nch
         lines = ["run %s %d 1 %d 0 %s" % (d, crc, k, " ".join(ops))]
+        if t2:
+            # keep the files of the crash for Replay.recover (model) and for the recovery step alone (implementation)
+            lines += ["cp %s %s/m" % (d, d), "cp %s %s/i" % (d, d), "wal %s/i %d" % (d, crc)]
         if rk is not None:
             lines.append("rec %s %d %d" % (d, crc, rk))
         lines.append("rec %s %d -1" % (d, crc))
@@ -164,12 +197,12 @@ def crash_cases(run, impl, wd, name, crc, ops, kills):
             lines.append("run %s %d 0 -1 2 %s" % (d, crc, " ".join(SESSION2)))
             lines.append("rec %s %d -1" % (d, crc))
         chunks[c] += lines
-        idx[c].append((ci, len(lines), nrec, cont))
+        idx[c].append((ci, len(lines), nrec, cont, t2))
     outs = W.par_lines(impl, chunks)
     res = [None] * n
     for c in range(nch):
         p = 0
-        for ci, nl, nrec, cont in idx[c]:
+        for ci, nl, nrec, cont, t2 in idx[c]:
             ls = outs[c][p:p + nl]
             p += nl
             d = os.path.join(wd, "%s-k%d" % (name, ci))
@@ -177,6 +210,19 @@ def crash_cases(run, impl, wd, name, crc, ops, kills):
             contres = None
             if cont and len(ls) == nl:
                 contres = {"run": ls[nrec], "final": ls[nrec + 1], "trace2": W.parse_trace(os.path.join(d, "trace2"))}
+            if t2 and len(ls) >= 4:
+                rcm, outm, errm = vlib.run_lines(model, "wal %s/m %d\n" % (d, crc), timeout=120)
+                fm, fi = W.fields((outm + [""])[0]), W.fields(ls[3])
+                diff = [k_ for k_ in ("rc", "main", "walsz") if fm.get(k_) != fi.get(k_)]
+                if fi.get("applied", "-") != "-" and fi.get("applied") != fm.get("applied"):
+                    diff.append("applied")
+                has_mark = b"\x7f\x00\x00\x00\x00\x00\x00\x00\x04\x00\x00\x00\x06\x00\x00\x00" in open(os.path.join(d, "m", "db-wal"), "rb").read()
+                run.dist("recovery_predicted_%s%s" % ("ok" if not diff else "differs", "_log_with_reset_mark" if has_mark else ""))
+                if diff and len(run.broken) < 6:
+                    run.broken.append("T2 correspondence (Replay.recover, crash inside an online backup) %s kill %d: %s differ: model %s | impl %s" % (
+                        name, kills[ci][0], ",".join(diff), (outm + [""])[0][:120], ls[3][:120]))
+                else:
+                    run.cov["traces_validated_against_impl"] += 1
             res[ci] = (tr, ls[nrec - 1] if len(ls) >= nrec else "<missing>", ls, contres)
             shutil.rmtree(d, ignore_errors=True)
     return res
@@ -245,7 +291,8 @@ def do_history(run, impl, wd, name, crc, ops, nfirst, nlater, rec_kills, corpus_
     if line != "run exit=0" or full["nfx"] is None:
         run.broken.append("T2 harness: uncrashed history run failed: %s" % line)
         return None
-    if model:
+    has_bkp = any(o[0] in "bB" for o in ops)
+    if model and not has_bkp:
         why = proto_t2(run, model, mode, d, crc, ops, full)
         run.dist("proto_trace_%s" % ("ok" if not why else "differs"))
         if why and len(run.broken) < 6:
@@ -294,10 +341,19 @@ def do_history(run, impl, wd, name, crc, ops, nfirst, nlater, rec_kills, corpus_
             j = rng.below(i + 1)
             cand[i], cand[j] = cand[j], cand[i]
         conts = set(cand[:ncont]) | set(rng.choice(pts) for _ in range(max(2, ncont // 4)))
-        kills = [(k, None, k in conts) for k in pts]
+        t2pts = set()
+        if has_bkp:
+            ibk = [i for i, o in enumerate(ops) if o[0] in "bB"][0]
+            ob = full["ops"].get(ibk, {})
+            inside = [k for k in pts if ob.get("fx0", 0) < k <= ob.get("fx1", N)]
+            for i in range(len(inside) - 1, 0, -1):
+                j = rng.below(i + 1)
+                inside[i], inside[j] = inside[j], inside[i]
+            t2pts = set(inside[:14])
+        kills = [(k, None, k in conts, k in t2pts) for k in pts]
         for _ in range(rec_kills):
             kills.append((rng.choice(pts), rng.below(6), False))
-    res = crash_cases(run, impl, wd, name, crc, ops, kills)
+    res = crash_cases(run, impl, wd, name, crc, ops, kills, model=model)
     for kk, (tr, recline, ls, contres) in zip(kills, res):
         k, rk = kk[0], kk[1]
         run.dist("crash_level_%d" % (2 if rk is not None else 1))
@@ -366,6 +422,11 @@ def check(run):
             ops = gen_history(run.rng, growth)
             run.dist("history_%s" % ("growth" if growth else "no_growth"))
             do_history(run, impl, wd, "h%d" % h, crc, ops, nfirst, nlater, rk, model=model, mode=mode)
+        for h in range((6 if run.tier == "quick" else 80) * mult):
+            crc = run.rng.choice([2, 2, 3])           # small log buffer: unsynced tails reach the log
+            ops = gen_backup_history(run.rng)
+            run.dist("history_inside_online_backup")
+            do_history(run, impl, wd, "hb%d" % h, crc, ops, nfirst, nlater, 6, model=model, mode=mode, ncont=6)
     finally:
         shutil.rmtree(wd, ignore_errors=True)
     return run.finish(level=LEVEL,
